@@ -17,7 +17,7 @@ use lightning_signer::bitcoin::{Block, Network, OutPoint, Transaction, Txid};
 use lightning_signer::channel::{ChannelBase, ChannelId, ChannelSlot, CommitmentType};
 use lightning_signer::node::{Node, NodeConfig, NodeServices};
 use lightning_signer::persist::Persist;
-use lightning_signer::policy::simple_validator::SimpleValidatorFactory;
+use lightning_signer::policy::simple_validator::{make_default_simple_policy, SimpleValidatorFactory};
 use lightning_signer::signer::derive::KeyDerivationStyle;
 use lightning_signer::lightning::types::payment::PaymentHash;
 use lightning_signer::tx::tx::{CommitmentInfo2, HTLCInfo2};
@@ -57,9 +57,19 @@ fn funding_tx(d: u64) -> Transaction {
     mk_tx(vec![make_outpoint(10 * d as u32 + 1), make_outpoint(10 * d as u32 + 2)], 1, 200 + d as u32)
 }
 
-fn services(persister: Arc<dyn Persist>) -> NodeServices {
+/// `max_channels`: `None` = the default policy (MAX_CHANNELS); `Some(m)` = the default policy with `max_channels = m`
+/// (configuration branch of `find_or_create_channel`: the channel map is full)
+fn services(persister: Arc<dyn Persist>, max_channels: Option<usize>) -> NodeServices {
+    let factory = match max_channels {
+        None => SimpleValidatorFactory::new(),
+        Some(m) => {
+            let mut p = make_default_simple_policy(Network::Regtest);
+            p.max_channels = m;
+            SimpleValidatorFactory::new_with_policy(p)
+        }
+    };
     NodeServices {
-        validator_factory: Arc::new(SimpleValidatorFactory::new()),
+        validator_factory: Arc::new(factory),
         starting_time_factory: make_genesis_starting_time_factory(Network::Regtest),
         persister,
         clock: Arc::new(ManualClock::new(Duration::from_secs(1_700_000_000))),
@@ -77,6 +87,7 @@ pub struct W15 {
     pub blocks: Vec<Block>,
     pub chain: Vec<Vec<u64>>,
     pub cb: u32,
+    pub max_channels: Option<usize>,
 }
 
 fn chan_id(d: u64) -> ChannelId {
@@ -84,17 +95,20 @@ fn chan_id(d: u64) -> ChannelId {
 }
 
 impl W15 {
-    pub fn new() -> W15 {
+    pub fn new() -> W15 { W15::new_with(None) }
+
+    /// a node whose policy allows at most `max_channels` entries in the channel map
+    pub fn new_with(max_channels: Option<usize>) -> W15 {
         let persister: Arc<dyn Persist> = Arc::new(KVVPersister(MemoryKVVStore::new([7u8; 16]), JsonFormat));
         let mut seed = [0u8; 32];
         seed.copy_from_slice(&hex::decode(TEST_SEED[1]).unwrap());
         // regtest: blocks of regtest difficulty can cross the retarget boundary at 2016 (on testnet they exceed the chain maximum)
         let config = NodeConfig { network: Network::Regtest, key_derivation_style: KeyDerivationStyle::Native, use_checkpoints: false, allow_deep_reorgs: true };
-        let node = Arc::new(Node::new(config, &seed, vec![], services(persister.clone())));
+        let node = Arc::new(Node::new(config, &seed, vec![], services(persister.clone(), max_channels)));
         persister.new_node(&node.get_id(), &config, &*node.get_state()).unwrap();
         persister.new_tracker(&node.get_id(), &node.get_tracker()).unwrap();
         node.add_allowlist(&[]).unwrap();
-        let mut w = W15 { persister, node, seed, txs: BTreeMap::new(), ids: HashMap::new(), kinds: BTreeMap::new(), blocks: vec![], chain: vec![], cb: 0 };
+        let mut w = W15 { persister, node, seed, txs: BTreeMap::new(), ids: HashMap::new(), kinds: BTreeMap::new(), blocks: vec![], chain: vec![], cb: 0, max_channels };
         w.ids.insert(lightning_signer::bitcoin::hashes::Hash::all_zeros(), 0);
         for d in 1..=NCH {
             let f = funding_tx(d);
@@ -300,7 +314,7 @@ impl W15 {
 
     pub fn restart(&mut self) {
         let (node_id, entry) = self.persister.get_nodes().unwrap().into_iter().next().unwrap();
-        let node = Node::restore_node(&node_id, entry, &self.seed, services(self.persister.clone())).unwrap();
+        let node = Node::restore_node(&node_id, entry, &self.seed, services(self.persister.clone(), self.max_channels)).unwrap();
         self.node = node;
     }
 
@@ -437,6 +451,11 @@ fn apply_basic(w: &mut W15, op: &str) {
 
 fn forgot_or_pruned_ok(_op: &str) -> bool { true }
 
+/// `init` = default policy; `init m<K>` = policy with `max_channels = K`
+fn init_max(op: &str) -> Option<usize> {
+    op.split_whitespace().nth(1).and_then(|t| t.strip_prefix('m')).and_then(|k| k.parse().ok())
+}
+
 pub struct C15;
 
 impl Group for C15 {
@@ -461,6 +480,14 @@ impl Group for C15 {
         let mut v = vec![
             // forget, restart, id reuse attempts
             mk("init|new 2|new 3|forget 3|restart|new 3|new 2|new 1|new 4|heartbeat"),
+            // holder commitment with an HTLC: our main output swept, the HTLC output never; forgotten; aged far beyond MIN_DEPTH and
+            // beyond the depth a closed channel is watched for: must survive every heartbeat
+            mk("init|new 1|setup 1|add 11|add 14|add 15|forget 1|addn 2020|heartbeat|addn 10|heartbeat|restart|heartbeat"),
+            // capacity 2: third id refused, the existing id refused as well (guard before lookup), room after forgetting a stub,
+            // the forgotten id stays refused; restart in between
+            mk("init m2|new 1|new 2|new 3|new 1|forget 2|restart|new 3|new 2|new 4|heartbeat"),
+            // capacity 1 with a ready channel: setup does not need room; after close + forget + burial the prune frees the slot
+            mk("init m1|new 1|setup 1|new 2|add 11|add 13|forget 1|addn 99|heartbeat|new 2|new 1"),
             // mutual close buried exactly 99 / 100 deep
             mk("init|new 1|setup 1|add 11|add 13|forget 1|addn 98|heartbeat|addn 1|heartbeat|restart|new 1"),
             // not forgotten: survives; forget flag and restart
@@ -559,8 +586,11 @@ impl Group for C15 {
             let mut first = vec![if cp_close { ucid(d) } else if cp_htlc { c_u } else { uid(d) }];
             if rng.chance(1, 3) { first.push(order.remove(0)); }
             push(&mut w, &mut ops, addl(&first));
-            if cp_close && rng.chance(1, 3) { order.clear(); } // our output stays unswept: must never be pruned
-            if cp_htlc && rng.chance(1, 3) { order.retain(|x| *x == c_s); } // only the main output is swept, the HTLC is not: must never be pruned
+            let mut partial = false; // some output of ours stays unswept for good
+            if cp_close && rng.chance(1, 3) { order.clear(); partial = true; } // our output stays unswept: must never be pruned
+            if cp_htlc && rng.chance(1, 3) { order.retain(|x| *x == c_s); partial = true; } // only the main output is swept, the HTLC is not: must never be pruned
+            // holder commitment: only our main output is swept, the HTLC output (and hence its second-level output) never is
+            if !cp_close && !cp_htlc && rng.chance(1, 4) { order.retain(|x| *x == sid(d)); partial = true; }
             let mut sweep_blocks = 0u64;
             while !order.is_empty() {
                 if rng.chance(1, 4) { push(&mut w, &mut ops, "add".into()); sweep_blocks += 1; }
@@ -590,6 +620,21 @@ impl Group for C15 {
             }
             if !forget_early && rng.chance(5, 6) { push(&mut w, &mut ops, format!("forget {}", d)); }
             if rng.chance(1, 3) { push(&mut w, &mut ops, "restart".into()); }
+            // long burial: a close that is only partially swept (or fully swept) ages far beyond MIN_DEPTH - weeks of blocks,
+            // around and beyond the 2016 blocks a closed channel's HTLC sweeps are watched for; a partially swept close
+            // must survive every heartbeat however old it gets
+            if (partial && rng.chance(1, 3)) || (!partial && rng.chance(1, 30)) {
+                let k = *rng.pick(&[300u64, 2014, 2015, 2016, 2017, 2300]);
+                push(&mut w, &mut ops, format!("addn {}", k));
+                for _ in 0..2 {
+                    push(&mut w, &mut ops, "heartbeat".into());
+                    push(&mut w, &mut ops, "addn 1".into());
+                }
+                push(&mut w, &mut ops, "heartbeat".into());
+                if rng.chance(1, 3) { push(&mut w, &mut ops, "restart".into()); push(&mut w, &mut ops, "heartbeat".into()); }
+                push(&mut w, &mut ops, format!("new {}", d));
+                return ops;
+            }
             // the tip block counts as depth 1
             let k = *rng.pick(&[97u64, 98, 98]);
             push(&mut w, &mut ops, format!("addn {}", k));
@@ -600,6 +645,13 @@ impl Group for C15 {
             push(&mut w, &mut ops, "heartbeat".into());
             push(&mut w, &mut ops, format!("new {}", d));
             return ops;
+        }
+        // configuration branch: a small `policy.max_channels` (1/4 of the generic cases), so that `new_channel` meets a full
+        // channel map: refusals at capacity (also for an id that exists), room again after a forgotten stub / a prune
+        if rng.chance(1, 4) {
+            let m = rng.range(1, 3);
+            ops[0] = format!("init m{}", m);
+            w = W15::new_with(Some(m as usize));
         }
         let steps = rng.range(5, if tier == Tier::Quick { 14 } else { 24 });
         let mut long_runs = 0;
@@ -668,6 +720,7 @@ impl Group for C15 {
         let t: Vec<&str> = op.split_whitespace().collect();
         Some(match t.as_slice() {
             ["init"] => "init 3 1".to_string(),
+            ["init", m] => format!("init 3 1 {}", m.trim_start_matches('m')),
             ["setup", d] => {
                 let d: u64 = d.parse().unwrap();
                 format!("setup {} {} {} 0 0.{};0.{}", d, d, fid(d), 10 * d + 1, 10 * d + 2)
@@ -687,7 +740,7 @@ impl Group for C15 {
             if dead { co.out.push("dead".into()); continue; }
             let t: Vec<&str> = op.split_whitespace().collect();
             if t[0] == "init" {
-                w = Some(W15::new());
+                w = Some(W15::new_with(init_max(op)));
                 co.out.push(format!("ok {}", w.as_ref().unwrap().digest()));
                 continue;
             }
@@ -698,8 +751,20 @@ impl Group for C15 {
                 ["new", d] => {
                     let d: u64 = d.parse().unwrap();
                     let existed = wd.has_channel(d);
+                    let count_before = existed_before.len();
                     let r = wd.new_channel(d);
                     if forgotten_max > 0 { interesting = true; }
+                    if let Some(m) = wd.max_channels {
+                        let count_after = (1..=NCH + 1).filter(|x| wd.has_channel(*x)).count();
+                        if count_before >= m { interesting = true; }
+                        // the configured capacity is never exceeded, and a refusal leaves the map alone
+                        if count_after > m.max(count_before) {
+                            co.violations.push(Violation { kind: "channel-capacity-exceeded".into(),
+                                desc: format!("new_channel({}) left {} channels, policy.max_channels = {}", d, count_after, m), at: i });
+                        }
+                        co.tags.insert(format!("new:{}:{}", if count_before >= m { "at-capacity" } else { "below-capacity" },
+                            if r.is_ok() { if existed { "existing" } else { "created" } } else { "refused" }));
+                    }
                     if r.is_ok() && !existed && d <= forgotten_max {
                         co.violations.push(Violation { kind: "channel-id-reuse".into(),
                             desc: format!("new_channel({}) created a channel although channel {} was forgotten before", d, forgotten_max), at: i });
